@@ -249,6 +249,53 @@ def rule_R4(ctx, prj):
         ctx.ok("R4", fm.site(), "format_measurement prints start.line, start.column, value, unit_name unchanged")
 
 
+def rule_R6_evaluated(ctx, prj) -> bool:
+    from ..absint import PyRaise, Unknown
+    from .. import walk_eval as W
+    ctx.rule("R6", "check_command evaluated on the same virtual tree as scan_path (C11-R6), working directory at the root: reached "
+                   "through the root or a sub-directory, relative or absolute, check analyses exactly the files scan analyses below "
+                   "that directory; named as a relative file path, every file scan analyses is checked, every excluded or "
+                   "unsupported file is not (a hidden file named explicitly is not judged)", floor=6)
+    fi = prj.func(f"{CK}:check_command")
+    try:
+        scan = None
+        for desc, got, roots, exargs in W.scan_scenarios(prj)[:1]:
+            scan = got
+        for desc, got, want in W.check_dir_scenarios(prj):
+            want = [f for f in want if scan is None or f in scan] if scan is not None else want
+            extra = [x for x in got if x not in want]
+            missing = [x for x in want if x not in got]
+            if extra:
+                why = W.why_not(extra[0])
+                ctx.viol("R6", f"check_command/walk/analyses-{why.split()[0]}", fi.site(), f"directory given as {desc}: check analyses {extra[0]}, which scan skips because it is {why} ({len(extra)} such file(s))")
+            elif missing:
+                ctx.viol("R6", "check_command/walk/skips-analysed", fi.site(), f"directory given as {desc}: {missing[0]} is analysed by scan but not checked ({len(missing)} missing)")
+            else:
+                ctx.ok("R6", fi.site(), f"directory given as {desc}: the same {len(want)} files as scan")
+        bad = None
+        n = 0
+        for rel, analysed, kind, got in W.check_file_scenarios(prj):
+            n += 1
+            if kind == "must" and not analysed:
+                bad = bad or (rel, "is analysed by scan but not checked when named as a relative file path", "check_command/file/skips-analysed")
+            elif kind == "must-not" and analysed:
+                why = W.why_not(W.ROOT + "/" + rel)
+                bad = bad or (rel, f"is checked when named as a relative file path although scan skips it: it is {why}", f"check_command/file/analyses-{why.split()[0]}")
+            elif len(got) > (1 if analysed else 0):
+                bad = bad or (rel, f"naming it makes check analyse {got}", "check_command/file/other-files")
+        if bad:
+            ctx.viol("R6", bad[2], fi.site(), f"{bad[0]} {bad[1]}")
+        else:
+            ctx.ok("R6", fi.site(), f"{n} files named as relative paths: checked exactly when scan analyses them (hidden names not judged)")
+            ctx.ok("R6", fi.site(), "file arguments and directory walks agree with scan")
+    except (Unknown, PyRaise) as e:
+        ctx.info(f"check_command not evaluable ({type(e).__name__}: {e}); structural rules R1/R2 decide")
+        ctx.rule("R6", "check_command not evaluable by the interpreter: structural rules R1/R2 decide", floor=0)
+        ctx.violations[:] = [v for v in ctx.violations if v.rule != "R6"]
+        return False
+    return True
+
+
 def run(ctx, prj: Project):
     ctx.explanation = (
         "Cross-check of the two sibling pipelines (Scanner.scan_path/_scan_file/_analyze_file vs commands.check."
@@ -258,7 +305,8 @@ def run(ctx, prj: Project):
         "not decided.")
     ctx.not_decided = ["equality of the printed text at run time", "the > 30 threshold itself (C02-R1)"]
     ctx.trust("CPython ast", "os.walk honours in-place edits only")
-    w = rule_R1(ctx, prj)
-    rule_R2(ctx, prj, w)
+    if not rule_R6_evaluated(ctx, prj):
+        w = rule_R1(ctx, prj)
+        rule_R2(ctx, prj, w)
     rule_R3(ctx, prj)
     rule_R4(ctx, prj)
